@@ -56,6 +56,12 @@ func cases(tier string, seed int64) []fw.Case {
 		p := params{Kind: "span", Steps: steps + 10*(i%4), Stakes: j, Chains: 2}
 		cs = append(cs, fw.MkCase(fmt.Sprintf("span-%03d", i), seed*1000003+int64(i)*7919, p))
 	}
+	// "degen" (degen.go): appended after the span cases for the same reason; one and two chains alternate.
+	for j := 0; j < n/len(kinds); j++ {
+		i := n + n/len(kinds) + j
+		p := params{Kind: "degen", Steps: steps/2 + 5*(i%4), Stakes: j, Chains: 1 + j%2} // the scripted opening is long: half the walk
+		cs = append(cs, fw.MkCase(fmt.Sprintf("degen-%03d", i), seed*1000003+int64(i)*7919, p))
+	}
 	return cs
 }
 
@@ -86,6 +92,8 @@ func run(c fw.Case, tier string, rec *fw.Recorder) {
 		h.scriptFeeGap()
 	case "span":
 		h.scriptSpan()
+	case "degen":
+		h.scriptDegen()
 	}
 	h.walk(p.Steps, p.Kind)
 	h.mon.finish()
@@ -326,6 +334,10 @@ func (h *hist) walk(steps int, kind string) {
 		{2, h.opFeeGap},
 		{3, h.opSpanSign},
 		{1, h.opSpanConfirm},
+		{2, h.opDegen},
+	}
+	if kind == "degen" {
+		ops = append(ops, wop{8, h.opDegen})
 	}
 	if kind == "span" {
 		ops = append(ops, wop{9, h.opSpanSign}, wop{3, h.opSpanConfirm})
@@ -359,9 +371,10 @@ func init() {
 			"alias: a validator registers another one's key in a different encoding; handover: a released key is registered by another validator; " +
 			"feegap: estimate consensus for a fee-paying message while its fees cannot be computed (assignee's relayer fee zero / negative / overflowing, treasury fee unusable), signatures collected meanwhile, cause removed, fees attached; " +
 			"span: every validator registers a different external account per chain, then signature transactions spanning the queues of both chains (one MsgAddMessagesSignatures, several of them in one tx, several txs in one block) with the other chain's account in every position of lists of 2-4 entries, and confirm transactions spanning batches of both chains; " +
+			"degen: validators re-register with a public-key field of degenerate shape (empty, zeros, 1-3 / 19 significant bytes, 21 / 33 bytes, 32 bytes zero-padded, address starting with 0x00; account address unchanged), then hand in signatures made by unrelated keys, by look-alike keys whose address ends / starts with the registered bytes, by the key of their account address, by another validator's key, replayed ones, and by the key the registered bytes name; " +
 			"mix: none) followed by a weighted random walk over " +
 			"sign / confirm (valid, garbage, wrong key, other validator's key, replayed foreign signature, duplicate, stale bytes, foreign orchestrator, carried by a user), " +
-			"gas estimates with and without quorum, job executions, transfers, batch building, executed claims, time-outs, key re-registrations, same-key registration attempts, self-contained fee-gap rounds, spanning signature / confirm rounds. " +
+			"gas estimates with and without quorum, job executions, transfers, batch building, executed claims, time-outs, key re-registrations, same-key registration attempts, self-contained fee-gap rounds, spanning signature / confirm rounds, degenerate-key rounds. " +
 			"The invariant is evaluated after EVERY block over all messages of all consensus queues and all batches. " +
 			"evaluations = stored signatures / confirms verified with ecrecover; distinct_nontrivial = distinct per-item event traces (accepted and rejected " +
 			"signature attempts by mode and reason, signing-byte changes with cause and number of signatures before/after, re-registrations of signers) of items " +
@@ -378,7 +391,8 @@ func init() {
 		Run:   run,
 		MinCounters: []string{"cq/signatures_verified", "batch/confirms_verified", "cq/changes_with_signatures_to_discard", "batch/changes_with_signatures_to_discard",
 			"cq/fee_gap/signed_in_gap_then_fees_attached",
-			"cq/span/valid_txs_accepted", "cq/span/other_chains_account_behind_its_legitimate_use_decided"},
+			"cq/span/valid_txs_accepted", "cq/span/other_chains_account_behind_its_legitimate_use_decided",
+			"cq/degen/foreign_signatures_decided", "cq/degen/named_key_signatures_accepted"},
 		TimeoutS: 1200,
 	})
 }
